@@ -126,9 +126,11 @@ def r3_enum_access(rep, facts):
                     errs_only = peel(arm['body']).get('k') == 'call' and (peel(peel(arm['body']).get('f', {})).get('path') or '').endswith('Result::Err')
                     if not errs_only:
                         for v in vs:
-                            acc.add({'InlineTable': 'Table', 'ArrayOfTables': 'Array'}.get(v, v))
+                            acc.add(v)
         acc -= {'Value', 'Ok', 'Some', 'Err', 'None'}
         return b, acc
+    # one TOML value has two spellings in a toml_edit tree, both of which the serializers emit
+    SPELL = {'Table': {'Table', 'InlineTable'}, 'Array': {'Array', 'ArrayOfTables'}}
     for meth in ENUM_KINDS:
         d1 = f"<toml_edit::de::table_enum::TableEnumDeserializer as serde::de::VariantAccess<'de>>::{meth}"
         d2 = f"<toml::value::MapEnumDeserializer as serde::de::VariantAccess<'de>>::{meth}"
@@ -137,7 +139,12 @@ def r3_enum_access(rep, facts):
             continue
         b1, k1 = kinds(d1)
         b2, k2 = kinds(d2)
-        rep.check(R, meth, k1 == k2, f'both accept {sorted(k1) or ["any (delegates)"]}', f'`{meth}`: toml_edit accepts {sorted(k1)}, toml accepts {sorted(k2)}', facts.loc(b2))
+        want = set()
+        for x in k2:
+            want |= SPELL.get(x, {x})
+        rep.check(R, meth, k1 == want, f'toml accepts {sorted(k2) or ["any (delegates)"]}, toml_edit every spelling of them {sorted(k1)}',
+                  f'`{meth}`: toml::Value accepts {sorted(k2)}, so the toml_edit tree must accept {sorted(want)} (standard and inline spelling), but it accepts {sorted(k1)}: '
+                  f'text that decodes through toml::Value fails through toml_edit::de (or the reverse)', facts.loc(b1))
 
 
 def r4_none_and_insert(rep, facts):
